@@ -28,7 +28,8 @@ CHECKS = {
         "bounds": {}, "assumptions": [],
     },
     "C18": {
-        "runs": [dict(REPOPKG, entries=["H18Index"], bounds_quick={"entries": 2, "shapes": 8, "maxdigit": 3}, bounds_thorough={"entries": 3, "shapes": 8, "maxdigit": 3})],
+        "runs": [dict(REPOPKG, entries=["H18Index"], bounds_quick={"entries": 2, "shapes": 8, "maxdigit": 3}, bounds_thorough={"entries": 3, "shapes": 8, "maxdigit": 3}),
+                 dict(pkg="./internal/resolver", files=["internal/resolver/h_c18_resolve.go"], entries=["H18Resolve"], bounds_quick={"entries": 2, "maxdigit": 3}, bounds_thorough={"entries": 3, "maxdigit": 9})],
         "bounds": {}, "assumptions": [],
     },
     "C08": {
